@@ -741,14 +741,20 @@ def deck_scenarios():
     return out
 
 
-def systematic_scenarios():
-    """Every chunk-boundary length for one read and one write, at two addresses, and the
-    duplicated-final-ack family (dup of every k-th reply for a k-chunk write followed by idle)."""
-    out = reenter_scenarios() + status_scenarios() + sendtime_scenarios() + deck_scenarios()
+def length_scenarios():
+    """every chunk-boundary (in fact every) length for one read and one write"""
+    out = []
     for ln in range(0, 62):
         out.append({'ops': [('read', 0, 3, ln)], 'faults': {}, 'mode': 'sync', 'policy': ('fifo', 0), 'img_seed': ln})
     for ln in range(0, 77):
         out.append({'ops': [('write', 1, 5, ln, False)], 'faults': {}, 'mode': 'sync', 'policy': ('fifo', 0), 'img_seed': ln})
+    return out
+
+
+def chunk_fault_scenarios():
+    """the duplicated-ack family (dup of every k-th reply for a k-chunk write followed by idle, alone
+    and with a write queued behind), an error status and a link drop at every chunk"""
+    out = []
     for ln in (0, 1, 25, 26, 50, 51):
         nchunks = max(1, (ln + 24) // 25)
         for k in range(1, nchunks + 1):
@@ -771,6 +777,23 @@ def systematic_scenarios():
                             'faults': {'drop_after': k, 'drop_by': by},
                             'mode': 'sync', 'policy': ('fifo', 0), 'img_seed': ln})
     return out
+
+
+def queue_scenarios():
+    """four writes to one memory issued back to back (the queue builds up), without and with a
+    flush_queue write among them, a read and a write to the other memory alongside"""
+    out = []
+    for mode in ('sync', 'thread'):
+        for fl in (None, 2, 3):
+            ops = [('write', 0, 2, 30, False), ('write', 0, 40, 3, fl == 1), ('write', 0, 50, 26, fl == 2),
+                   ('write', 0, 90, 5, fl == 3), ('read', 1, 3, 21), ('write', 1, 8, 1, False), ('sleep', 2.0)]
+            out.append({'ops': ops, 'faults': {}, 'mode': mode, 'policy': ('fifo', 0), 'img_seed': 40 + (fl or 0)})
+    return out
+
+
+def systematic_scenarios():
+    return (reenter_scenarios() + status_scenarios() + sendtime_scenarios() + deck_scenarios() + queue_scenarios() +
+            length_scenarios() + chunk_fault_scenarios())
 
 
 # --------------------------------------------------------------------------- mutants
@@ -937,20 +960,25 @@ def _mut_deck_swallow_read_failure(cf):
     cf._undo = lambda: setattr(dm.DeckMemoryManager, '_new_data_failed', orig)
 
 
-def _old_families():
-    return systematic_scenarios()[len(reenter_scenarios()) + len(status_scenarios()) + len(sendtime_scenarios()) + len(deck_scenarios()):]
-
-
 def _sub_general(seed, tier):
-    return (reenter_scenarios()[::5] + _old_families()[::5] +
-            [gen_scenario(random.Random(seed + 1 + i), tier, KINDS[i % 6]) for i in range(50)])
+    """what the general in-memory mutants are run on: a deterministic part that contains a rejecting
+    scenario for each of them (so that a self-test cannot fail by the luck of a seed) and a random part"""
+    ls = length_scenarios()
+    seen, cf = {}, []
+    for sc in chunk_fault_scenarios():           # every other scenario of each kind of fault / history
+        k = (tuple(sorted(sc['faults'])), sc['ops'][0][0], len(sc['ops']))
+        seen[k] = seen.get(k, 0) + 1
+        if seen[k] % 2 == 1:
+            cf.append(sc)
+    return (reenter_scenarios()[::5] + ls[::6] + [ls[41], ls[61], ls[62 + 51], ls[62 + 76]] + cf +
+            [gen_scenario(random.Random(seed + 1 + i), tier, KINDS[i % 6]) for i in range(40)])
 
 
 # name -> (in-memory mutant, the scenarios it is run on)
 MUTANTS = {'read_chunk_21': (_mut_read_chunk, _sub_general), 'write_done_early': (_mut_write_pop_early, _sub_general),
            'swallow_read_failure': (_mut_swallow_read_fail, _sub_general),
            'empty_queue_index': (_mut_empty_queue_index, _sub_general),
-           'lifo_writes': (_mut_lifo_writes, lambda seed, tier: [gen_scenario(random.Random(seed + 1 + i), tier, KINDS[i % 6]) for i in range(250)]),
+           'lifo_writes': (_mut_lifo_writes, lambda seed, tier: queue_scenarios() + [gen_scenario(random.Random(seed + 1 + i), tier, KINDS[i % 6]) for i in range(100)]),
            'wrong_continuation': (_mut_wrong_continuation, _sub_general),
            'errno_lookup': (_mut_errno_lookup, lambda seed, tier: status_scenarios()[::2] + deck_scenarios()[::5]),
            'register_after_send': (_mut_register_after_send, lambda seed, tier: sendtime_scenarios()),
